@@ -555,21 +555,30 @@ fn emitted(stats: &mut Stats) {
                 for hmac in [0u8, 2] {
                     // user ids: the default, the empty byte string, 64 bytes
                     for user in 0..3u8 {
-                        let case = json!({"emitted": {"org": org, "mode": mode, "prf": prf, "hmac": hmac, "user": user}});
-                        for f in emitted_one(org, mode, prf, hmac, user, &case) {
-                            stats.finding(f);
+                        // the authenticator's configured transports: default, none, one
+                        for transports in 0..3u8 {
+                            let case = json!({"emitted": {"org": org, "mode": mode, "prf": prf, "hmac": hmac, "user": user, "transports": transports}});
+                            for f in emitted_one(org, mode, prf, hmac, user, transports, &case) {
+                                stats.finding(f);
+                            }
+                            stats.case(&case.to_string(), true, "emitted-credential");
                         }
-                        stats.case(&case.to_string(), true, "emitted-credential");
                     }
                 }
             }
         }
     }
 }
-fn emitted_one(org: Org, mode: Mode, prf: bool, hmac: u8, user: u8, case: &Value) -> Vec<Finding> {
+fn emitted_one(org: Org, mode: Mode, prf: bool, hmac: u8, user: u8, transports: u8, case: &Value) -> Vec<Finding> {
     let mut fs = vec![];
     let store = Shared::new(RefStore::new());
-    let mut client = mk_client(store.clone(), ScriptedUv::consenting(Log::new()), org, &AuthCfg { counter: true, id_len: None, hmac, hmac_mc: true });
+    let mut auth = mk_auth(store.clone(), ScriptedUv::consenting(Log::new()), &AuthCfg { counter: true, id_len: None, hmac, hmac_mc: true });
+    auth = match transports {
+        1 => auth.transports(vec![]),
+        2 => auth.transports(vec![webauthn::AuthenticatorTransport::Usb]),
+        _ => auth,
+    };
+    let mut client = passkey_client::Client::new(auth).allows_insecure_localhost(org == Org::Localhost);
     let ext = || {
         Some(webauthn::AuthenticationExtensionsClientInputs {
             cred_props: Some(true),
@@ -849,7 +858,7 @@ pub fn replay(ctx: &Ctx, case: &Value) -> Result<Vec<Finding>, String> {
     if let Some(e) = case.get("emitted") {
         let org: Org = serde_json::from_value(e["org"].clone()).map_err(|e| e.to_string())?;
         let mode: Mode = serde_json::from_value(e["mode"].clone()).map_err(|e| e.to_string())?;
-        return Ok(emitted_one(org, mode, e["prf"].as_bool().unwrap_or(false), e["hmac"].as_u64().unwrap_or(0) as u8, e["user"].as_u64().unwrap_or(0) as u8, case));
+        return Ok(emitted_one(org, mode, e["prf"].as_bool().unwrap_or(false), e["hmac"].as_u64().unwrap_or(0) as u8, e["user"].as_u64().unwrap_or(0) as u8, e["transports"].as_u64().unwrap_or(0) as u8, case));
     }
     if case.get("client_data").is_some() {
         return Ok(client_data_one(case));
